@@ -254,6 +254,9 @@ func Eq(a, b *Term) *Term {
 	if Equal(a, b) {
 		return True
 	}
+	if termLess(b, a) {
+		a, b = b, a
+	}
 	if a.W == 0 {
 		if a.IsConst() {
 			a, b = b, a
@@ -320,11 +323,31 @@ func Ite(c, a, b *Term) *Term {
 	return t
 }
 
+func commutative(op Op) bool {
+	switch op {
+	case OpAdd, OpMul, OpBAnd, OpBOr, OpBXor:
+		return true
+	}
+	return false
+}
+
+// less orders terms for the canonical argument order of commutative operators
+// (constants last, otherwise by structural hash).
+func termLess(a, b *Term) bool {
+	if a.IsConst() != b.IsConst() {
+		return !a.IsConst()
+	}
+	return a.h < b.h
+}
+
 func bin(op Op, a, b *Term) *Term {
 	if a.W != b.W || a.W <= 0 {
 		panic(fmt.Sprintf("smt bin %s: width mismatch %d vs %d", opNames[op], a.W, b.W))
 	}
 	w := a.W
+	if commutative(op) && termLess(b, a) {
+		a, b = b, a
+	}
 	if a.IsConst() && b.IsConst() {
 		if v, ok := foldBin(op, w, a.V, b.V); ok {
 			return Const(w, v)
@@ -510,9 +533,11 @@ func cmp(op Op, a, b *Term) *Term {
 	return mk(op, 0, a, b)
 }
 
-func ULt(a, b *Term) *Term { return cmp(OpULt, a, b) }
+// Strict comparisons are canonicalised to the negation of the non-strict one
+// with swapped arguments, so that x<y, y>x, !(x>=y), !(y<=x) are one atom.
+func ULt(a, b *Term) *Term { return Not(cmp(OpULe, b, a)) }
 func ULe(a, b *Term) *Term { return cmp(OpULe, a, b) }
-func SLt(a, b *Term) *Term { return cmp(OpSLt, a, b) }
+func SLt(a, b *Term) *Term { return Not(cmp(OpSLe, b, a)) }
 func SLe(a, b *Term) *Term { return cmp(OpSLe, a, b) }
 
 func Concat(hi, lo *Term) *Term {
